@@ -15,12 +15,12 @@ PROPS["C01"]["level_text"] += (
     " Histograms: nothing assumed (BuildHistograms is modelled; totals <= MLEN + 1 <= 2^25 proved, which is C17's no-wrap bound)."
     " ReadsTo / readMetaBlocks_step / readMetaBlocks_last: consecutive pieces compose through the decoder state."
     " The proof attempt exposed a real defect of /repo (the static-codes branch of the fast writer indexed the 64-entry static distance code with large-window distance symbols >= 64: panic at quality 2, proposed/fast-static-distance-large-window.md, fixed in 5ef5adf); the model follows the fixed branch condition and fast_writer_large_window_symbol_64 is the kernel-checked regression witness."
-    " wmbi_*_roundtrip (BV/Lemmas/MetaBlockWmbi.lean, if present in the module list): the size decision of WriteMetaBlockInternal (C08's model) composed with these writers."
+    " wmbi_trivial_roundtrip / wmbi_fast_roundtrip: the size decision of WriteMetaBlockInternal (C08's model BV.Stored.writeMetaBlockInternal, guard_holds) composed with the two writers: for every verdict of should_compress, appendable/catable, last or not, the attempt is written without panic and what the call leaves in the storage - the compressed meta-block, or the stored one when the attempt is not tried or exceeds len + 4 bytes (the Guard branch), plus the separate empty last meta-block of appendable streams - is read by the RFC reader from (history, ring) to a state whose output is history ++ input (one non-last meta-block, or the end of the stream)."
 )
 PROPS["C01"]["level_note"] += (
     " Second module: trusted additionally the hand-written model BV/Model/MetaBlock.lean (correspondence: ~8.5k calls of the real BrotliStoreMetaBlockTrivial/Fast per quick run, valid, mutated and truncated command arrays, ring wrap positions, bit-exact storage incl. ~380 panic outcomes;"
     " ~3.3k `hyp` lines: cmdOK/lockstep/replay evaluated by the Lean side on every command array the real match finders (quality 2..11) produced; ~1.3k `read` lines: the Lean RFC reader against both real decoders on the real writers' streams)."
-    " Still not covered: the full writer BrotliStoreMetaBlock (quality >= 4: block splits, context maps), compress_fragment (quality 0/1), the 'stored when bigger than input + 4' decision of WriteMetaBlockInternal (Guard of C08), and that the match finders' commands satisfy lockstep/replay (checked on every run, not proved)."
+    " The 'stored when bigger than input + 4' decision of WriteMetaBlockInternal is covered through C08's model of it (wmbi_*_roundtrip; should_compress is an arbitrary verdict). Still not covered: the full writer BrotliStoreMetaBlock (quality >= 4: block splits, context maps), compress_fragment (quality 0/1), and that the match finders' commands satisfy cmdOK/lockstep/replay (checked on every run, not proved)."
     " The stateless shape of MetaBlockDecodes.Dec in BV/Props/C01.lean cannot be instantiated directly (decoding a compressed meta-block depends on the history and the distance ring): the connection is ReadsTo, a state-indexed triple."
 )
 PROPS["C01"]["rule"] += (
